@@ -764,6 +764,137 @@ def inplace_and_copy_case(ctx, B, E, name, classes, N1, o1, N2, o2, kind, what, 
         ctx.violation('copy:empty', '%s: copy(empty=True) is not empty' % what, replay)
 
 
+def observe(E, S, probes, with_nets):
+    """every observable of a StarSet in canonical (order-free) form: range, state set, stars as set of sets, the
+    index array and indexdict read back as state -> star, the three look-ups for every probe (inside and outside the
+    set), and the derived omega1 / omega2 networks (or the exception they raise)"""
+    _, stars = _onsager()
+    keys = [ps_key(x) for x in S.states]
+    starsets = [frozenset(keys[xi] for xi in st) for st in S.stars]
+    obs = dict(Nshells=int(S.Nshells), Nstates=int(S.Nstates), Nstars=int(S.Nstars), nstates_list=len(keys),
+               states=frozenset(keys), stars=frozenset(starsets),
+               index={keys[xi]: starsets[int(S.index[xi])] for xi in range(len(keys))} if len(S.index) == len(keys) else 'bad-length',
+               indexdict={ps_key(k): (keys[v[0]] if 0 <= v[0] < len(keys) else ('out-of-range', v[0]),
+                                      starsets[v[1]] if 0 <= v[1] < len(starsets) else ('out-of-range', v[1]))
+                          for k, v in S.indexdict.items()})
+    look = {}
+    for k in probes:
+        Q = stars.PairState.fromcrys_latt(E.crys, E.chem, (k[0], k[1]), np.array(k[2:2 + E.dim], dtype=int))
+        xi, si = S.stateindex(Q), S.starindex(Q)
+        look[k] = (None if xi is None else (keys[xi] if 0 <= xi < len(keys) else ('out-of-range', xi)),
+                   None if si is None else (starsets[si] if 0 <= si < len(starsets) else ('out-of-range', si)),
+                   Q in S)
+    obs['lookups'] = look
+    if with_nets:
+        for nm in ('jumpnetwork_omega1', 'jumpnetwork_omega2'):
+            try:
+                trip = getattr(S, nm)()
+                if trip == []:
+                    obs[nm] = 'empty'
+                else:
+                    jn, jt, sp = trip
+                    obs[nm] = frozenset((int(t), frozenset((None if i is None else keys[i], None if f is None else keys[f])
+                                                           for (i, f), dx in cls),
+                                         frozenset((starsets[int(p[0])], starsets[int(p[1])])))   # rep-independent
+                                        for cls, t, p in zip(jn, jt, sp))
+            except Exception as e:
+                obs[nm] = 'raises:' + type(e).__name__
+    return obs
+
+
+def history_case(ctx, B, E, name, classes, kind, length):
+    """ONE StarSet object driven through a random history of in-place operations (generate to a larger / smaller
+    range with / without origin states, `+=`, diffgenerate, generate again).  After every step the reused object must be
+    indistinguishable, through every observable (see `observe`), from a freshly built object for the same request; the
+    probes are all states seen so far in the history (so states that left the set are queried too)."""
+    rng = ctx.rng
+    J = [s for c in classes for s in c]
+    closed = is_G_closed(E, J)
+    proper = is_proper(E, classes)
+    base = dict(crystal=name, chem=E.chem, lattice=repr(E.crys.lattice.tolist()),
+                basis=repr([[list(map(float, u)) for u in b] for b in E.crys.basis]),
+                jumpnetwork_lattice_form=classes, network=kind)
+    Nmax = 2 if ctx.quick else 3
+    try:
+        N0, o0 = rng.randint(0, Nmax), rng.random() < 0.5
+        S = make_starset(E, classes, N0, o0)
+    except Exception as e:
+        ctx.violation('generate:raises:' + type(e).__name__, '%s %s: StarSet construction raised %r' % (name, kind, e), base)
+        return
+    hist = [('new', N0, int(o0))]
+    state = ('gen', N0, o0)     # what a fresh object for the current content is
+    seen = set(ps_key(x) for x in S.states)
+    for step in range(length):
+        r = rng.random()
+        cur = int(S.Nshells)
+        try:
+            if r < 0.6 or state[0] != 'gen':
+                # regenerate in place; the same Nshells is the documented no-op, so pick a different range
+                N = rng.choice([n for n in range(0, Nmax + 1) if n != cur] or [cur + 1])
+                o = rng.random() < 0.5
+                S.generate(N, originstates=o)
+                op, state = ('generate', N, int(o)), ('gen', N, o)
+                F = make_starset(E, classes, N, o)
+            elif r < 0.8:
+                N2, o2 = rng.randint(1, 2), state[2] if rng.random() < 0.7 else (rng.random() < 0.5)
+                if state[1] < 1 or state[1] + N2 > Nmax + 1: continue
+                other = make_starset(E, classes, N2, o2)
+                S += other
+                op, state = ('iadd', N2, int(o2)), ('gen', state[1] + N2, state[2])
+                F = make_starset(E, classes, state[1], state[2])
+            else:
+                N1, o1, N2, o2 = rng.randint(1, 2), rng.random() < 0.3, rng.randint(1, 2), rng.random() < 0.3
+                A1, A2 = make_starset(E, classes, N1, o1), make_starset(E, classes, N2, o2)
+                S.diffgenerate(A1, A2)
+                op, state = ('diffgenerate', N1, int(o1), N2, int(o2)), ('diff',)
+                F = make_starset(E, classes, 0, False)
+                F.diffgenerate(make_starset(E, classes, N1, o1), make_starset(E, classes, N2, o2))
+        except Exception as e:
+            ctx.violation('history:raises:%s:%s' % (hist[-1][0] + '>' + 'op', type(e).__name__),
+                          '%s %s: in-place history %s then next op raised %r' % (name, kind, hist, e), dict(base, history=hist))
+            return
+        hist.append(op)
+        seen |= set(ps_key(x) for x in S.states) | set(ps_key(x) for x in F.states)
+        probes = sorted(seen)
+        if len(probes) > 400: probes = rng.sample(probes, 400)
+        with_nets = state[0] == 'gen' and max(len(S.states), len(F.states)) <= (150 if ctx.quick else 400)
+        oS, oF = observe(E, S, probes, with_nets), observe(E, F, probes, with_nets)
+        # stars of `+=` agree with generate as sets of sets only for a symmetric network; nets only for proper ones
+        skip = set()
+        if op[0] == 'iadd' and not closed: skip |= {'stars', 'index', 'indexdict', 'lookups', 'Nstars',
+                                                   'jumpnetwork_omega1', 'jumpnetwork_omega2'}
+        if not proper: skip |= {'jumpnetwork_omega1', 'jumpnetwork_omega2'}
+        bad = [k for k in oS if k not in skip and oS[k] != oF[k]]
+        if op[0] == 'iadd' and not closed and not bad:
+            # still: look-ups must agree on membership
+            mem = lambda o: {k: (v[0] is not None, v[2]) for k, v in o['lookups'].items()}
+            if mem(oS) != mem(oF): bad = ['lookups']
+        if bad:
+            detail = ''
+            if 'lookups' in bad:
+                k = next(k for k in oS['lookups'] if oS['lookups'][k] != oF['lookups'][k])
+                detail = '; e.g. state %s: reused object answers (stateindex->%s, in=%s), fresh object (%s, in=%s)' % (
+                    k, oS['lookups'][k][0], oS['lookups'][k][2], oF['lookups'][k][0], oF['lookups'][k][2])
+            elif 'indexdict' in bad:
+                extra = sorted(set(oS['indexdict']) - set(oF['indexdict']))[:3]
+                detail = '; indexdict keys only in the reused object: %s' % extra
+            else:
+                detail = '; %s' % ', '.join('%s: %s vs %s' % (k, short(repr(oS[k]), 80), short(repr(oF[k]), 80)) for k in bad[:2])
+            ctx.violation('history:%s>%s:%s' % (hist[-2][0], op[0], '+'.join(sorted(bad))),
+                          '%s %s: after the in-place history %s the reused StarSet differs from a fresh one in %s%s'
+                          % (name, kind, hist, sorted(bad), detail), dict(base, history=hist, differs=sorted(bad)))
+            return
+        ctx.count('history:%s>%s' % (hist[-2][0], op[0]))
+        if op[0] == 'generate':
+            ctx.count('history:range-' + ('shrinks' if op[1] < cur else 'grows'))
+    # the final content also goes to the model when it is a plain generate
+    if state[0] == 'gen' and B is not None and (closed or hist[-1][0] != 'iadd'):
+        what = '%s %s history %s' % (name, kind, hist)
+        B.ask('gen %d %d' % (state[1], int(state[2])), compare_starset(ctx, 'history', name, what, S, dict(base, history=hist)))
+    ctx.case(('history', name, E.chem, tuple(map(tuple, classes)), tuple(hist)), nontrivial=len(hist) > 2,
+             sample=dict(case='%s %s in-place history' % (name, kind), history=hist))
+
+
 def diff_case(ctx, B, E, name, classes, N1, o1, N2, o2, kind):
     _, stars = _onsager()
     what = '%s diffgenerate(S(%d,o=%d),S(%d,o=%d)) %s' % (name, N1, o1, N2, o2, kind)
@@ -870,6 +1001,8 @@ def run(ctx, search_mode=False):
                     add_case(ctx, B, E, name, cl, N1, o, N2, o, kind)
                     if rng.random() < 0.3:
                         add_case(ctx, B, E, name, cl, N1, o, N2, not o, kind)
+                for _ in range(2 if ctx.quick else 4):
+                    history_case(ctx, B, E, name, cl, kind, length=5 if ctx.quick else 8)
                 for (N1, N2) in ([(1, 1)] if ctx.quick else [(1, 1), (2, 1), (1, 2)]):
                     diff_case(ctx, B, E, name, cl, N1, rng.random() < 0.3, N2, rng.random() < 0.3, kind)
         B.flush()
